@@ -21,7 +21,7 @@ EXHAUSTIVE = {'quick': 'all labelled undirected graphs on <=5 nodes and all dire
 ASSUMPTIONS = ['float64 input with empty diagonal; positive lengths; weights in (0,1] for the transforms',
                'only off-diagonal entries of breadthdist/reachdist are compared (their diagonal is the shortest cycle)',
                'a hop count must be the hop count of SOME minimum-length path', 'charpath eccentricity/radius not judged',
-               'the inverse of a zero-length path (weight exactly 1 under the log transform) is undefined and not judged']
+               'a pair at distance 0 (weight exactly 1 under the log transform) has efficiency +inf, and so has the mean']
 REQUIRED = ['distance_bin/distances', 'distance_wei/distances', 'distance_wei/hop_counts', 'distance_wei_floyd/distances',
             'distance_wei_floyd/hop_counts', 'breadthdist/distances', 'breadthdist/reach_flag', 'reachdist/distances',
             'reachdist/reach_flag', 'charpath/lambda', 'charpath/efficiency', 'efficiency_bin/global',
@@ -245,11 +245,10 @@ def check_weights(REC, bct, A, W, directed):
                 for i in range(n) for j in range(n))
             REC.check(PROP, 'distance_wei_floyd', 'hop_counts', hgood, {'W': W, 'transform': tr, 'got': hp})
         with np.errstate(all='ignore'):
-            inv = np.where(off, 1.0 / D, 0.0)
+            inv = np.where(off, 1.0 / (D + 0.0), 0.0)      # (+ 0.0: a zero distance is +0, its inverse +inf)
         if n >= 2 and (D[off & fin] == 0).any():
-            # a zero-length path (weight exactly 1 under 'log'): its inverse is undefined, not judged
-            REC.tag(PROP, 'zero_length_path:efficiency_not_judged')
-        elif n >= 2:
+            REC.tag(PROP, 'zero_length_path:efficiency_is_plus_infinity')
+        if n >= 2:
             ok, res = call(REC, PROP, 'rout_efficiency', bct.rout_efficiency, W, transform=tr)
             if ok:
                 GE, ER, _ = res
